@@ -32,6 +32,7 @@ type gen struct {
 	top    bool // the window is the last of the supported address range
 	far    bool // two clusters of addresses 2^63 apart
 	tiny   bool // mostly 1-2 byte accesses (with a wide window: many separate blocks)
+	regs   bool // register-file histories (C18): further value and address shapes
 }
 
 func (g *gen) width() int {
@@ -99,6 +100,16 @@ func (g *gen) leaf(w int) *refeval.J {
 	case 1, 2:
 		return refeval.RegJ(symRegs[g.r.Intn(len(symRegs))], w)
 	default:
+		if g.regs && g.r.Chance(1, 3) {
+			// a load through a computed address: a register narrowed or widened
+			// by a width adapter - the adapter is part of the address, not of
+			// the loaded value
+			a := refeval.BinJ(int(expr.Add), refeval.RegJ(symRegs[g.r.Intn(len(symRegs))], 8), refeval.ConstU(0, 1), g.r.Range(1, 8))
+			if g.r.Bool() {
+				a = refeval.BinJ(int(expr.Add), a, refeval.ConstU(0, 1), 8)
+			}
+			return refeval.MemJ(symMems[g.r.Intn(len(symMems))], a, w)
+		}
 		return refeval.MemJ(symMems[g.r.Intn(len(symMems))], refeval.ConstU(uint64(g.r.Intn(64)), 8), w)
 	}
 }
@@ -323,6 +334,7 @@ func (e *Engine) Generate(r *core.Rand, prop string, tier string) core.Trace {
 	switch prop {
 	case "C18":
 		t.Obj, g.symOK = "regs", r.Chance(3, 4)
+		g.regs = true
 		t.BytesIO = r.Chance(1, 3)
 		g.regOps(nOps(r, tier))
 	}
@@ -506,7 +518,14 @@ func (g *gen) regOps(n int) {
 			g.t.Ops = append(g.t.Ops, Op{K: "apply_mem", Key: symMems[g.r.Intn(2)], W: w, V: g.value(w), AddrX: x})
 		default: // address that does not reduce to a constant: must be refused
 			var x *refeval.J
-			switch g.r.Intn(7) {
+			switch g.r.Intn(8) {
+			case 7:
+				// a shift by a constant wider than the operation whose bits lie
+				// above the operation's width: the amount is cut to that width
+				// first, so nothing is shifted and the address is the register
+				ow := []int{1, 2, 4, 7}[g.r.Intn(4)]
+				amount := uint64(1+g.r.Intn(255)) << (8 * uint(ow))
+				x = refeval.BinJ([]int{int(expr.Rsh), int(expr.Lsh)}[g.r.Intn(2)], refeval.RegJ([]string{"x1", "x2", "x3"}[g.r.Intn(3)], ow), refeval.ConstU(amount, ow+1), ow)
 			case 0:
 				x = refeval.RegJ("x1", 8)
 			case 1:
